@@ -129,7 +129,46 @@ def generate(rng: random.Random, tier: str):
                     yield S.history_case(fam, tr.before, tr.steps, tr.doc, f"op/{op}", [[op, args, "ok"]])
 
 
+    # set_node_markup on nodes that carry marks of their own (appended stream): without a marks argument the node keeps
+    # them, with one it gets exactly the given ones
+    for fam in gen.FAMILY:
+        g, docs = S.family_docs(rng, fam, 6 if quick else 60)
+        sc = gen.family(fam)
+        for doc in docs:
+            cands = [(p, n) for p, n in S.all_positions_with_nodes(doc) if not n.is_text]
+            marked = [(p, n) for p, n in cands if n.marks]
+            for _ in range(4 if quick else 10):
+                if not cands:
+                    break
+                pos, node = rng.choice(marked) if marked and rng.random() < 0.7 else rng.choice(cands)
+                r = rng.random()
+                given = None if r < 0.5 else ([] if r < 0.6 else [S.rand_mark(rng, sc) for _ in range(rng.randint(1, 2))])
+                yield markup_case(fam, doc, pos, given)
+
+
+def markup_case(fam, doc, pos, given):
+    info = S.info_for(fam)
+    tr = Transform(doc)
+    err = None
+    try:
+        tr.set_node_markup(pos, None, doc.node_at(pos).attrs, given)
+    except Exception as e:  # noqa: BLE001
+        err = f"{type(e).__name__}: {e}"[:120]
+    hist, cur = S.observe_history(info, doc, tr.steps)
+    coq = (f"CMarkup @S@ {info.node(doc)} {nat(pos)} {opt(given, info.marks)} {lst(x.term() for x in hist)} {info.node(tr.doc)}")
+    desc = {"case": "markup", "family": fam, "doc": doc.to_json(), "pos": pos,
+            "marks": None if given is None else [m.to_json() for m in given],
+            "steps": [x.desc() for x in hist], "final": tr.doc.to_json(), "error": err}
+    return Case(coq=coq, desc=desc, schema=info.schema_term(), kind="set_node_markup" + ("/ERROR" if err else ""),
+                nontrivial=len(hist) > 0)
+
+
 def rebuild(desc):
+    if desc.get("case") == "markup":
+        sc = gen.family(desc["family"])
+        doc = Node.from_json(sc, desc["doc"])
+        given = None if desc["marks"] is None else [sc.mark_from_json(m) for m in desc["marks"]]
+        return markup_case(desc["family"], doc, desc["pos"], given)
     if desc.get("case") == "markop":
         sc = gen.family(desc["family"])
         doc = Node.from_json(sc, desc["doc"])
